@@ -392,6 +392,15 @@ def hook(res, tier, files=None, max_breaks=5):
             names = [n for n in d.ask("FAILING\t" + chk).split(";") if n]
             out_exec = sorted(n for n in names if idx.get(n) in exe)
             frag[chk] = {"functions_outside": len(names), "functions_inside": len(info["functions"]) - len(names), "executed_outside": len(out_exec), "executed_inside": len(exe) - len(out_exec), "executed_outside_names": out_exec}
+        # >>> WP1c: the navigation fragment of C05 (closed set of functions that touch the token list only through the helpers
+        # whose interpreted semantics is proved equal to the hand models)
+        nav = [n for n in d.ask("NAVFRAG").split(";") if n]
+        nav_exec = sorted(n for n in nav if idx.get(n) in exe)
+        frag["nav"] = {"functions_inside": len(nav), "functions_outside": len(info["functions"]) - len(nav), "executed_inside": len(nav_exec), "executed_outside": len(exe) - len(nav_exec), "executed_outside_names": []}
+        ch = [n for n in d.ask("CHAINS").split(";") if n]
+        ch_exec = sorted(n for n in ch if idx.get(n) in exe)
+        frag["chains"] = {"functions_inside": len(ch), "functions_outside": len(info["functions"]) - len(ch), "executed_inside": len(ch_exec), "executed_outside": len(exe) - len(ch_exec), "executed_outside_names": []}
+        # <<< WP1c
         d.close()
     except Exception as ex:  # noqa: BLE001
         frag = {"error": repr(ex)}
